@@ -178,6 +178,16 @@ def run(ctx: Ctx):
                 ctx.check(f.module.name in RNG_MODULES, "R-C06-5", f, cs.node,
                           f"{cs.external}: numpy RNG draws are confined to the sampler and the corpus shuffling tool",
                           key=cs.external)
+    # the stream a run is reproducible through is numpy's global one (`np.random.seed` is what the command line and the tests seed): a draw from the
+    # standard library's `random` in the samplers / the shuffling tool is a second generator that seeding numpy does not reach
+    for f in M.all_functions(include_notebook=False):
+        if f.module.name not in RNG_MODULES:
+            continue
+        for cs in ext_calls(p, f, "random."):
+            if cs.caller is not f or (cs.external or "").startswith("random.seed"):
+                continue
+            ctx.bad("R-C06-5", f, cs.node, f"{cs.external} draws from the standard library's generator inside {f.qualname}: np.random.seed (the only seeding the command line "
+                    f"and the tests do) does not fix it, so two runs with the same seed draw different samples", key="stdlib-" + (cs.external or ""))
     dis_inits = [c.methods["__init__"].qualname for c in M.classes.values()
                  if M.is_subclass(c.name, "AbstractDissimilarity") and "__init__" in c.methods]
     ctx.require(dis_inits, "R-C06-5", "no dissimilarity constructor found")
